@@ -23,7 +23,7 @@ type CancelCase struct {
 
 func cancelInputs() []faultInput {
 	tm := enum.TextMenu()
-	rv := append([]faultInput{}, faultInputs()[4:]...)
+	rv := append([]faultInput{}, faultMergeInputs()...)
 	rv = append(rv, faultInput{"multi-field / multi-term / doc-value merge", []spec.Batch{tm[6], tm[2], tm[4]}, [][]int{{1}, nil, {0}}})
 	rv = append(rv, vecCancelInputs()...)
 	return rv
@@ -164,21 +164,19 @@ func init() {
 	run.Register(&run.Def{
 		ID:          "C18",
 		Level:       "fault_enumeration",
-		Rule:        "deviation enumeration of the cancellation point on the real Merge: the merge goroutine observes the close channel only at its polls, and between two harness-observable steps (a write reaching the StatsReporter passed to Merge, or a call into the vector-engine stand-in) it only does in-memory work that is discarded on abort, so closing at any real time is equivalent to closing right after the preceding observable step. For each input (4 text/synonym merges of C17, a 3-segment multi-field/doc-value merge; under the vectors tag 3 vector merges): the fault-free run is recorded (S observable steps), then one merge per closing point: closed before the call; closed inside step j for EVERY j in 1..S; never closed. The order in which Merge runs its sections is a Go-map order: the plain flavours take whatever the runtime picks, and the instrumented flavours (range over package-level maps made deterministic at build time) repeat the whole enumeration under EVERY order of the sections (2 orders by default, 6 under the vectors tag). Oracle: pre-closed -> the closed error and no file; otherwise either success with a complete, correct file (footer, CRC, re-open, content == reference, renumbering maps) or the closed error with no file; never another error, never a file left behind on error, never success for an incomplete file; engine live-object count 0 afterwards. Non-trivial = one (input, closing step).",
+		Rule:        "deviation enumeration of the cancellation point on the real Merge: the merge goroutine observes the close channel only at its polls, and between two harness-observable steps (a write reaching the StatsReporter passed to Merge, or a call into the vector-engine stand-in) it only does in-memory work that is discarded on abort, so closing at any real time is equivalent to closing right after the preceding observable step. For each input (the 6 text/synonym merges of C17, a 3-segment multi-field/doc-value merge; under the vectors tag 3 vector merges): the fault-free run is recorded (S observable steps), then one merge per closing point: closed before the call; closed inside step j for EVERY j in 1..S; never closed. The order in which Merge runs its sections is a Go-map order: the plain flavours take whatever the runtime picks, and the instrumented flavours (range over package-level maps made deterministic at build time) repeat the whole enumeration under EVERY order of the sections (2 orders by default, 6 under the vectors tag). Oracle: pre-closed -> the closed error and no file; otherwise either success with a complete, correct file (footer, CRC, re-open, content == reference, renumbering maps) or the closed error with no file; never another error, never a file left behind on error, never success for an incomplete file; engine live-object count 0 afterwards. Non-trivial = one (input, closing step).",
 		Assumptions: []string{"equivalence argument above: cancellation is only observed at polls executed by the merge goroutine itself", "vector merges use the stand-in engine (DESIGN 3.4)"},
 		Bounds:      map[string]string{"quick": "every closing point of every input, both build tags, random section order + every section order", "thorough": "same: the cancellation space is enumerated completely in both tiers"},
 		Flavours:    func(string) []string { return []string{"plain", "vec", "inst", "instvec"} },
 		New:         func() interface{} { return &CancelCase{} },
 		Gen: func(tier string, emit func(interface{})) {
 			const of = 8
-			n, perms := 5, 1
+			n, perms := len(cancelInputs()), 1
 			switch run.Flavour {
-			case "vec":
-				n = 8
 			case "inst":
 				perms = 2 // two sections: both orders
 			case "instvec":
-				n, perms = 8, 6 // three sections: all six orders
+				perms = 6 // three sections: all six orders
 			}
 			for perm := 0; perm < perms; perm++ {
 				for i := 0; i < n; i++ {
